@@ -1962,9 +1962,10 @@ namespace bloch::compiler {
                     throw BlochError(ErrorCategory::Semantic, node.line, node.column,
                                      "assignment to field '" + node.name + "' expects '" +
                                          typeLabel(targetType) + "'");
-                } else if (field->type.value != ValueType::Unknown &&
-                           valType.value != ValueType::Unknown &&
-                           !matchesPrimitive(targetType.value, valType.value)) {
+                } else if (nonPrimitiveIntoPrimitive(targetType, valType) ||
+                           (field->type.value != ValueType::Unknown &&
+                            valType.value != ValueType::Unknown &&
+                            !matchesPrimitive(targetType.value, valType.value))) {
                     throw BlochError(ErrorCategory::Semantic, node.line, node.column,
                                      "assignment to field '" + node.name + "' expects '" +
                                          typeToString(targetType.value) + "'");
@@ -2654,9 +2655,10 @@ namespace bloch::compiler {
                     throw BlochError(ErrorCategory::Semantic, node.line, node.column,
                                      "assignment to field '" + node.name + "' expects '" +
                                          typeLabel(targetType) + "'");
-                } else if (field->type.value != ValueType::Unknown &&
-                           valType.value != ValueType::Unknown &&
-                           !matchesPrimitive(targetType.value, valType.value)) {
+                } else if (nonPrimitiveIntoPrimitive(targetType, valType) ||
+                           (field->type.value != ValueType::Unknown &&
+                            valType.value != ValueType::Unknown &&
+                            !matchesPrimitive(targetType.value, valType.value))) {
                     throw BlochError(ErrorCategory::Semantic, node.line, node.column,
                                      "assignment to field '" + node.name + "' expects '" +
                                          typeToString(targetType.value) + "'");
@@ -2736,9 +2738,10 @@ namespace bloch::compiler {
                 throw BlochError(ErrorCategory::Semantic, node.line, node.column,
                                  "assignment to field '" + node.member + "' expects '" +
                                      typeLabel(targetType) + "'");
-            } else if (targetType.value != ValueType::Unknown &&
-                       valType.value != ValueType::Unknown &&
-                       !matchesPrimitive(targetType.value, valType.value)) {
+            } else if (nonPrimitiveIntoPrimitive(targetType, valType) ||
+                       (targetType.value != ValueType::Unknown &&
+                        valType.value != ValueType::Unknown &&
+                        !matchesPrimitive(targetType.value, valType.value))) {
                 throw BlochError(ErrorCategory::Semantic, node.line, node.column,
                                  "assignment to field '" + node.member + "' expects '" +
                                      typeToString(targetType.value) + "'");
